@@ -167,8 +167,8 @@ func TestVerifC06(t *testing.T) {
 				line["s"], line["pn"], line["skips"], line["size"], line["nf"], line["kind"], line["zr"] = vfSpaceNames[s], pn, skips, size, nf, kind, zr
 			case "Ack":
 				s := op.Int("s")
-				if spaceOf(s) == nil || largest[s] < 0 {
-					continue
+				if spaceOf(s) == nil || (largest[s] < 0 && op.Int("pat") != 4) {
+					continue // (in a space where nothing was sent yet only the ACK for a number never sent - pattern 4, packet 0 - is meaningful)
 				}
 				L := largest[s]
 				var rs [][]int // descending
